@@ -627,15 +627,17 @@ func c05Detector(w *World, r *Report) {
 		okNone := false
 		for _, alt := range ReturnAlts(vf, 0) {
 			if c, isCall := peel(alt.Val).(*ssa.Call); isCall && isCallTo(c, "fmt.Errorf") {
-				if s, _ := constString(c.Call.Args[0]); strings.Contains(s, "no flow direction") {
-					cs := expandConds(alt.Conds)
-					n := 0
-					for _, cd := range cs {
-						if isCallTo0(cd.V, "FlowDirection).IsDefined") && !cd.Pol {
-							n++
-						}
+				// the error built in place that is returned under two negated IsDefined tests
+				// (identified by its conditions, not by the wording of the message)
+				cs := expandConds(alt.Conds)
+				n := 0
+				for _, cd := range cs {
+					if isCallTo0(cd.V, "FlowDirection).IsDefined") && !cd.Pol {
+						n++
 					}
-					okNone = n == 2
+				}
+				if n == 2 {
+					okNone = true
 				}
 			}
 		}
